@@ -8,7 +8,8 @@
     for every capacity >= 1 ([c09_string_any_capacity], [c09_piece_any_capacity]).
     The real crate has BUF_SIZE = 65536. *)
 From Coq Require Import ZArith List Bool.
-From RlibV Require Import C09.Model C09.Spec C09.Proofs.
+(* Corr before Spec: [join]/[flush_points] without qualification are Spec.v's *)
+From RlibV Require Import C09.Model C09.Corr C09.Spec C09.Proofs C09.ProofsCorr.
 Import ListNotations.
 Open Scope Z_scope.
 
@@ -87,3 +88,39 @@ Theorem c09_round_trip : forall (BUF : Z) (dbg : bool) (vs : list (ity * Z)),
   exists text, run BUF dbg [OWrite (VVec (int_values vs))] = Some (text, [])
                /\ parse_ints text = Some (map snd vs).
 Proof. exact round_trip_final. Qed.
+
+(** ---------- the correspondence check carries the specification ---------- *)
+
+(** whenever the observation recorded in a case (bytes the sink received from the real
+    Writer, sink sizes at the explicit flushes, or a panic) is what the verified model
+    delivers, it is what the specification demands, computed independently of the model
+    (standard-library decimal printer [Z.to_int], plain concatenation): so the batch lemma
+    [forallb model_check cases = true] carries the property to the implementation on every
+    sampled case by proof.  [in_scope c] (Corr.v) = the reported capacity is at least 39
+    and the two verdicts the executor computes on the Rust side (same bytes as [to_string];
+    [Reader] read the integers back) are positive; these two are inputs no model of the
+    writer predicts, [spec_check] passes them through.  Nothing is assumed about the
+    script: outside the property's quantifier [spec_check] is vacuous, inside it
+    [in_scope_op] gives [wf_op].  In particular: no panic on a script of the quantifier. *)
+Theorem c09_model_check_spec_check : forall c : case,
+  in_scope c = true -> model_check c = true -> spec_check c = true.
+Proof. exact model_check_spec_check_final. Qed.
+
+(** the capacity hypothesis only serves to exclude a panic of the model itself: for an
+    observation that is not a panic the implication holds at every capacity *)
+Theorem c09_model_check_spec_check_any_capacity : forall c : case,
+  c_obs c <> Panic -> executor_verdicts (c_obs c) = true -> model_check c = true -> spec_check c = true.
+Proof. exact model_check_spec_check_any_capacity_final. Qed.
+
+(** partial correctness at every capacity (also 0 < BUF < 39, also BUF <= 0): if the model
+    does not panic, the sink holds the concatenation of the renderings after the drop and
+    held everything written before at each explicit flush; a piece that does not fit
+    panics, it is never truncated or reordered *)
+Theorem c09_run_some_delivers : forall (BUF : Z) (dbg : bool) (ops : list op) (r : list byte * list Z),
+  Forall wf_op ops -> run BUF dbg ops = Some r -> r = (rendering ops, Spec.flush_points ops 0).
+Proof. exact run_delivers_final. Qed.
+
+(** the digit loop's output is the numeral the standard library's [Z.to_int] prints
+    ([dec], Corr.v), for every integer *)
+Theorem c09_sdec_is_dec : forall v : Z, sdec v = dec v.
+Proof. exact sdec_dec_final. Qed.
